@@ -751,7 +751,7 @@ fn gen_project(rng: &mut Rng) -> Project {
 }
 
 /// hand-written projects: the decision boundaries, stack parameters, read-after-write through an alias,
-/// killed cells, an unknown input, and the signed-overflow finding
+/// killed cells, an unknown input, and the (fixed) signed-overflow finding
 fn crafted() -> Vec<(String, Project)> {
     let reg4 = |r: &str| Arg::Register { expr: e_sub(0, 4, e_var(r, 8)), data_type: None };
     let reg8 = |r: &str| Arg::Register { expr: e_var(r, 8), data_type: None };
@@ -868,7 +868,7 @@ fn crafted() -> Vec<(String, Project)> {
             (vec![d_assign("d10", var("RDI", 8), e_const(8, 8))], "puts"),
         ],
     ));
-    // 5. the known finding: constants whose addition overflows as a signed addition
+    // 5. the former finding (fixed): constants whose addition overflows as a signed addition must be decided
     out.push(mk(
         "signed_overflow",
         vec![umask4(), malloc()],
